@@ -12,7 +12,7 @@ import (
 func init() { register("C12", propC12) }
 
 func propC12(r *Report, tier string) {
-	r.Explanation = "Structural necessary conditions of 'needed segment files are never removed; unneeded files do not accumulate': (a) K7 the only deletion of files in package scorch is the purger's os.Remove (builder/trainer sites allow-listed by reason); (b) that Remove is control-dependent on all of: .zap extension, name absent from the set loaded from EVERY bolt snapshot, not ineligibleForRemoval, copyScheduled <= 0, under rootLock; (c) bolt snapshots are removed before zap files, only non-protected epochs, in one write transaction; (d) mark/un-mark discipline of merge products and inputs, un-mark of persisted files only after the commit that names them; (e) copyScheduled increments (CopyReader, write-locked, every root segment) are matched by stored decrements in CloseCopyReader over the same file-name function; (f) the purger is reachable only from the persister goroutine and the open phase; (g) snapshot references taken by internal users are released on all exits (K1 AddRef/DecRef)."
+	r.Explanation = "Structural necessary conditions of 'needed segment files are never removed; unneeded files do not accumulate': (a) K7 the only deletion of files in package scorch is the purger's os.Remove (builder/trainer sites allow-listed by reason); (b) that Remove is control-dependent on all of: .zap extension, name absent from the set loaded from EVERY bolt snapshot, not ineligibleForRemoval, copyScheduled <= 0, under rootLock; (c) bolt snapshots are removed before zap files, only non-protected epochs, in one write transaction; (d) mark/un-mark discipline of merge products and inputs, un-mark of persisted files only after the commit that names them; (e) copyScheduled increments (CopyReader, write-locked, every root segment) are matched by stored decrements in CloseCopyReader over the same file-name function; (f) the purger is reachable only from the persister goroutine and the open phase; (g) snapshot references taken by internal users are released on all exits (K1 AddRef/DecRef). (h) K1 when a deferred clean-up decides on a local error variable, every later return hands back that variable or nil; (i) the introducers queue a file for un-marking only on paths that do not carry its segment into the new root."
 	r.NotCovered = "that a file named by bolt physically exists at every instant of every schedule; quiescent directory contents; open file descriptor counts"
 	ruleWhoMayRemoveFiles(r, "K7-who-may-remove-files")
 	rulePurgerGuards(r, "K5-purger-guards")
